@@ -15,7 +15,7 @@ ID = "C18"
 LEVEL = "exploration"
 RULE = (
     "case = n in 2..4 concurrent send_message callers (own ids, own timeouts) on one (read, write) pair + the server's answers as a list of "
-    "(instant, caller index) in any order on a virtual-time grid around the 0.5 s poll boundaries, each a result or an error, as the unified or the typed envelope class + 0..2 unrelated notifications placed between answers; "
+    "(instant, caller index) in any order on a virtual-time grid around the 0.5 s poll boundaries, each a result (also the empty/falsy results {}, [], 0, "", false) or an error, as the unified or the typed envelope class + 0..2 unrelated notifications placed between answers; "
     "n<=3 enumerated exhaustively (all answer permutations x 5 instants per answer x 3 notification patterns), n=4 drawn by Hypothesis; "
     "a recording proxy logs which caller task dequeued which item; non-trivial = answer order differs from request order or a notification sits between two answers; "
     "distinct = distinct full case"
@@ -31,6 +31,7 @@ META = {
 }
 
 INSTANTS = [10, 49, 50, 51, 90]
+FALSY: List[Any] = [{}, [], 0, "", False]
 
 
 def check(case: Dict[str, Any]) -> Outcome:
@@ -46,11 +47,14 @@ def check(case: Dict[str, Any]) -> Outcome:
 
     schedule: List[Tuple[float, Any]] = []
     seq: List[Tuple[float, int, str]] = []
+    falsy: Dict[str, int] = case.get("falsy", {})  # caller -> which empty/falsy result its answer carries (valid results all)
     typed = set(case.get("typed", []))  # answers delivered as the specific envelope classes instead of the unified one
     for k, (t, i) in enumerate(answers):
         form = {"$form": "typed"} if i in typed else {}
         if i in err_for:
             schedule.append((t / 100.0, {"jsonrpc": "2.0", "id": f"c{i}", "error": {"code": -32000 - i, "message": f"for c{i}"}, **form}))
+        elif str(i) in falsy:
+            schedule.append((t / 100.0, {"jsonrpc": "2.0", "id": f"c{i}", "result": FALSY[falsy[str(i)] % len(FALSY)], **form}))
         else:
             schedule.append((t / 100.0, {"jsonrpc": "2.0", "id": f"c{i}", "result": {"for": f"c{i}", "k": k}, **form}))
         seq.append((t / 100.0, k, "a"))
@@ -122,7 +126,11 @@ def check(case: Dict[str, Any]) -> Outcome:
         if fa is not None and fa[0] <= starts[i] + 1e-9:
             continue  # answered before the request was even sent: outside the property
         # ---- (a) cross-talk
-        if kind == "return":
+        if kind == "return" and str(i) in falsy and i not in err_for:
+            if not strict_eq(val, FALSY[falsy[str(i)] % len(FALSY)]):
+                out.fail("cross-talk:caller-got-anothers-response", f"caller {i} (empty result {FALSY[falsy[str(i)] % len(FALSY)]!r} expected) returned {val!r}")
+                continue
+        elif kind == "return":
             if not (isinstance(val, dict) and val.get("for") == f"c{i}"):
                 out.fail("cross-talk:caller-got-anothers-response", f"caller {i} returned {val!r}")
                 continue
@@ -186,6 +194,11 @@ def job_exhaustive(col: Collector, seed: int, tier: str, shard: int, nshards: in
                 case = {"n": 2, "timeouts": [200, 200], "answers": [[inst[k], perm[k]] for k in range(2)], "notifs": [],
                         "errors": [c for c in range(2) if kinds[c] & 1], "typed": [c for c in range(2) if kinds[c] & 2]}
                 col.record(case, check(case))
+                if kinds == (0, 0):
+                    for who in range(2):
+                        for fk in range(len(FALSY)):
+                            case = {"n": 2, "timeouts": [200, 200], "answers": [[inst[k], perm[k]] for k in range(2)], "notifs": [], "falsy": {str(who): fk}}
+                            col.record(case, check(case))
     # staggered lifetimes: caller 2 joins at t=0.30 after an earlier caller may have completed
     for perm in itertools.permutations(range(3)):
         for inst in itertools.product([10, 20, 40, 60, 90], repeat=3):
@@ -211,6 +224,9 @@ def cases(draw):
     case = {"n": n, "timeouts": timeouts, "answers": answers, "notifs": notifs, "errors": errors}
     if draw(st.integers(0, 2)) == 0:
         case["typed"] = [i for i in range(n) if draw(st.booleans())]
+    if draw(st.integers(0, 2)) == 0:
+        # at most one caller per case gets an empty/falsy (but valid) result, so a mix-up stays visible
+        case["falsy"] = {str(draw(st.integers(0, n - 1))): draw(st.integers(0, len(FALSY) - 1))}
     if draw(st.booleans()):
         starts = [0] + [draw(st.sampled_from([0, 0, 15, 30, 55, 80])) for _ in range(n - 1)]
         case["starts"] = starts
